@@ -218,6 +218,13 @@ def r20_3(prog: Program, rep: Report):
     # transform(): parse -> transformer over the whole tree -> unparse
     f = prog.function(f"{MOD}.transform")
     ok = False
+    # a path that hands the text back unparsed is a textual shortcut whose soundness depends on string reasoning
+    for p, r in P.returns(P.paths_of(prog, f)):
+        if not T.contains(r, lambda s: T.is_call_to(s, "ast.unparse")):
+            gs = [g for g, pol in p.guards()]
+            simple = bool(gs) and all(T.contains(g, lambda s: s[0] == "cmp" and s[1] in ("in", "notin") and s[2][0] == "const" and s[3] == ("param", "annotation")) for g in gs)
+            if not simple:
+                rep.undecided("R20.3", f.qualname, f.loc, "a path of transform() returns without parsing under a condition computed from the text (" + "; ".join(T.show(g)[:60] for g in gs)[:160] + "): whether every rewritable construct is excluded there cannot be decided structurally", detail="textual-shortcut")
     for p, r in P.returns(P.paths_of(prog, f)):
         parsed = ("call", ("ref", "ast.parse"), (("param", "annotation"),), (("mode", ("const", "eval")),))
         for s in T.walk(r):
